@@ -10,6 +10,7 @@ import (
 	"encoding/base64"
 	"encoding/json"
 	"fmt"
+	"strings"
 	"time"
 
 	"github.com/formancehq/ledger/verifx/vx"
@@ -433,6 +434,97 @@ func main() {
 	for _, qb := range foreignFilters {
 		one(r, input{Kind: "decode", Doc: `{"pageSize":3,"bottom":9,"column":"id","paginationID":4,"order":1,"filters":{"qb":` + qb + `,"pageSize":3,"options":{"pit":null,"volumes":false,"effectiveVolumes":true}},"reverse":false}`})
 	}
+	// 5b. what a cursor has to carry: filter values of every byte class at every alignment modulo 3 of the cursor
+	// document (base64 alphabets differ on the sextets 62/63 only), and filters of every size (a token embeds the
+	// whole filter of the first request). Each goes through the codec directly (UnmarshalCursor(EncodeCursor(q)) = q)
+	// and through a listing walk (first page, next, previous with exactly the tokens handed out). Every tier and seed.
+	{
+		small := func(own string) []brow {
+			var t []brow
+			for i := 0; i < 5; i++ {
+				t = append(t, brow{Ledger: own, ID: int64(i), Attr: i % 3})
+			}
+			return append(t, brow{Ledger: "l2", ID: 0, Attr: 1}, brow{Ledger: "l2", ID: 3, Attr: 0})
+		}
+		// a filter over the given values the listing accepts and the table driver does not evaluate (so the walk has
+		// several pages whatever the values are)
+		mk := func(listing, op string, vals []string) *fexpr {
+			var items []*fexpr
+			for i, v := range vals {
+				if listing == "logs" {
+					items = append(items, &fexpr{Op: []string{"gte", "lt"}[i%2], Key: "date", Value: v})
+				} else {
+					items = append(items, &fexpr{Op: "match", Key: fmt.Sprintf("metadata[u%d]", i), Value: v})
+				}
+			}
+			if listing == "logs" && len(items) == 1 {
+				items = append(items, &fexpr{Op: "lt", Key: "date", Value: vals[0]})
+			}
+			if len(items) == 1 && op == "" {
+				return items[0]
+			}
+			if op == "" {
+				op = "or"
+			}
+			return &fexpr{Op: op, Items: items}
+		}
+		paths := [][2]string{{"store", "transactions"}, {"http-v2", "transactions"}, {"http-v1", "transactions"}, {"store", "accounts"},
+			{"http-v2", "accounts"}, {"http-v1", "accounts"}, {"store", "logs"}, {"http-v2", "logs"}}
+		walk := func(kind, listing string, f *fexpr, size int) {
+			in := input{Kind: kind, Listing: listing, Table: small("l1"), Own: "l1", Filter: f, Pit: pit}
+			if kind == "store" {
+				in.Size = uint64(size)
+			} else {
+				in.SizeParam = sp(fmt.Sprint(size))
+			}
+			one(r, in)
+		}
+		codec := func(f *fexpr, k int) {
+			pid, off := int64(1), uint64(1)
+			for i := 0; i < k%3; i++ {
+				pid, off = pid*10+1, off*10+1
+			}
+			one(r, input{Kind: "codec", Query: &qdesc{Size: uint64(1 + k%120), Column: "id", Order: "desc", Pid: &pid, Bottom: &pid, Filter: f, OptSize: uint64(k % 7), Pit: pit, Reverse: k%2 == 0}})
+			one(r, input{Kind: "codec", Query: &qdesc{Size: uint64(1 + k%120), Order: "asc", Offset: &off, Filter: f, OptSize: 15, Pit: pit}})
+		}
+		rot := g.Intn(len(paths))
+		k := 0
+		for _, v := range cursorValues {
+			for pad := 0; pad < 3; pad++ {
+				val := "xx"[:pad] + v
+				pth := paths[(k+rot)%len(paths)]
+				f := mk(pth[1], "", []string{val})
+				codec(f, k)
+				walk(pth[0], pth[1], f, 2)
+				k++
+			}
+		}
+		clause := func(i int) string { return fmt.Sprintf("https://example.com/cb?id=%d&t=~%d", i, i*7) }
+		for _, n := range []int{1, 5, 30, 100, 300} {
+			vals := make([]string, n)
+			for i := range vals {
+				vals[i] = clause(i)
+			}
+			for _, op := range []string{"or", "and"} {
+				codec(mk("transactions", op, vals), k)
+				k++
+				walk("http-v2", []string{"transactions", "accounts"}[g.Intn(2)], mk("transactions", op, vals), 2)
+				walk("store", "logs", mk("logs", op, vals), 1+g.Intn(3))
+				if g.Bool() || n >= 100 {
+					walk("store", []string{"transactions", "accounts"}[g.Intn(2)], mk("transactions", op, vals), 2)
+				}
+			}
+		}
+		for _, n := range []int{10, 1000, 10000} {
+			for pad := 0; pad < 3; pad++ {
+				val := "xx"[:pad] + strings.Repeat("a?~b", n/4+1)[:n]
+				f := mk("transactions", "", []string{val})
+				codec(f, k)
+				k++
+				walk([]string{"http-v2", "http-v1", "store"}[pad], []string{"transactions", "accounts"}[g.Intn(2)], f, 2)
+			}
+		}
+	}
 	// 6. GetPageSize
 	for _, dm := range [][2]uint64{{15, 100}, {15, 1000}, {1, 1}, {7, 5}} {
 		one(r, input{Kind: "pagesize", Default: dm[0], Max: dm[1]})
@@ -468,6 +560,13 @@ func main() {
 	}
 	one(r, input{Kind: "http-v2", Listing: "transactions", Table: genBucket(g, 5), Own: "l1", SizeParam: sp("abc")})
 	r.Finish()
+}
+
+// filter values of every byte class (each is used at three paddings)
+var cursorValues = []string{
+	"?", "~", "??", "~~~", "?~?~", ">", "<", "+", "/", "-", "_", "=", "&", "%", "#", "'", "\"", "\\", " ", "a b",
+	"!\"#$%&'()*+,-./:;<=>?@[\\]^_`{|}~", "????????", "~~~~~~~~", "+/+/-_-_==", "https://example.com/callback?id=1", "https://example.com/a/b?x=~a&y=?",
+	"~temporary", "a?b~c", "é", "ÿ?", "ßü~", "€", "漢字?~", "€€€", "😀", "🙂~?é€", "x😀y?", strings.Repeat("?~", 50),
 }
 
 // filter members a foreign cursor may carry: accepted and refused shapes of query.ParseJSON
